@@ -254,7 +254,20 @@ class SingleQubitUnitaryMatrix2RYRZTranspiler(GateDecomposer):
         return gate.name == gate_names.UnitaryMatrix and len(gate.target_indices) == 1
 
     def decompose(self, gate: QuantumGate) -> Sequence[QuantumGate]:
-        theta = su2_decompose(gate.unitary_matrix)
+        # The entries of the stored matrix are exact only to about 1e-7 (small
+        # imaginary parts are dropped), so the phase of an entry of that size is
+        # meaningless. su2_decompose takes its angles from ratios of the entries:
+        # rebuild the second row from the first one and the determinant, which
+        # makes those ratios consistent again (an entry without an imaginary
+        # part stays a float, as in the stored matrix).
+        ut = gate.unitary_matrix
+        a, b = complex(ut[0][0]), complex(ut[0][1])
+        det = a * ut[1][1] - b * ut[1][0]
+        det /= abs(det)
+        row = [-det * b.conjugate(), det * a.conjugate()]
+        theta = su2_decompose(
+            [ut[0], [x.real if x.imag == 0 else x for x in row]]
+        )
 
         target = gate.target_indices[0]
         return [
